@@ -28,7 +28,7 @@ BUDGET = {
     "quick": {"cases": 16000, "seconds": 90, "shards": 8},
     "thorough": {"cases": 500000, "seconds": 900, "shards": 16},
 }
-REQUIRED_OBS = ["seed_zero_cases", "split_checked", "split_with_index_checked", "merge_checked", "determinism_checked", "convert_checked", "format:txt", "format:csv",
+REQUIRED_OBS = ["returned_arrays_scribbled", "seed_zero_cases", "split_checked", "split_with_index_checked", "merge_checked", "determinism_checked", "convert_checked", "format:txt", "format:csv",
                 "format:json", "subgraph_from_file_checked", "nonsequential_rejected", "p_extreme", "same_path_reconvert_checked"]
 MIN_NONTRIVIAL = 300
 
@@ -46,6 +46,8 @@ def generate(rng, tier, idx):
                 "noise": int(rng.integers(0, 1000))}
     n = int(rng.integers(2, 40))
     f = int(rng.integers(1, 7))
+    if rng.random() < 0.004:
+        n, f = 4096, 1                     # record counts at a power-of-two block boundary (chunked readers)
     K = int(rng.integers(1, 6))
     labels = list(range(1, K + 1)) + [int(v) for v in rng.integers(1, K + 1, size=max(0, n - K))]
     labels = [labels[int(i)] for i in rng.permutation(len(labels))][:n]
@@ -54,6 +56,8 @@ def generate(rng, tier, idx):
         drop = int(rng.integers(1, K))          # remove a non-maximal class -> labels not sequential
         labels = [(K if l == drop else l) for l in labels]
         seq = sorted(set(labels)) == list(range(1, max(labels) + 1))
+    if rng.random() < 0.06:
+        labels[int(rng.integers(0, len(labels)))] = 0      # a 0-based label in the binary becomes -1 after the shift: not 0..K-1
     if sorted(set(labels)) != list(range(1, max(labels) + 1)):
         seq = False
     ids = [int(v) for v in rng.choice(2 ** 31 - 1, size=n, replace=False)] if rng.random() < 0.5 else list(range(n))
@@ -138,6 +142,20 @@ def _split(case, res):
     if not (np.array_equal(B1, X1) and np.array_equal(B2, X2) and np.array_equal(C1, Y1) and np.array_equal(C2, Y2)):
         res.violate("split", "C18/split-not-deterministic", f"split with the same seed {seed} gave different outputs after the global RNG was disturbed")
         return res
+    # the caller may do what it likes with the RETURNED arrays: scribbling on them must not change a later split
+    keepI1, keepI2 = np.array(I1, copy=True), np.array(I2, copy=True)
+    keepZ1 = np.array(Z1, copy=True)
+    for arr in (I1, I2, Z1, Z2, W1, W2):
+        try:
+            arr.sort(axis=0)
+            arr[...] = 0
+        except Exception:  # noqa: BLE001
+            pass
+    again = safe_call(sp.split_with_index, X.copy(), Y.copy(), p, seed)
+    if not again.ok or not (np.array_equal(again.value[4], keepI1) and np.array_equal(again.value[5], keepI2) and np.array_equal(again.value[0], keepZ1)):
+        res.violate("split", "C18/split-not-deterministic", f"split_with_index(seed={seed}) changed after the caller modified the arrays returned by the previous call")
+        return res
+    res.see("returned_arrays_scribbled")
     m = safe_call(sp.merge, X1, X2, Y1, Y2)
     if not m.ok:
         res.violate("merge", f"C18/exception/merge/{type(m.exc).__name__}", f"merge raised at {m.where}")
